@@ -33,6 +33,7 @@ package internal
 //@   modifies key[*]
 //@   ensures [C10:source-wiped] forall i int :: 0 <= i && i < len(key) ==> key[i] == 0
 //@   ensures (err == nil) == (result != nil)
+//@   ensures [C04,C05:key-carries-row-flag] err == nil ==> (result.revoked == 1) == revoked
 //@   ensures [C02:key-carries-row-stamp] err == nil ==> fresh(result) && result.created == created && result.secret != nil && live(result.secret) && fresh(result.secret) && valid(result.secret)
 //@   modifies live
 //@   ensures [C09:only-the-key-s-secret-is-new] forall s securememory.Secret :: live(s) && !old(live(s)) ==> fresh(s) && err == nil && s == result.secret
@@ -52,6 +53,7 @@ package internal
 //@   requires factory != nil
 //@   modifies live
 //@   ensures (err == nil) == (result != nil)
+//@   ensures err == nil ==> result.revoked == 0
 //@   ensures err == nil ==> fresh(result) && result.created == created && result.secret != nil && live(result.secret) && fresh(result.secret) && valid(result.secret)
 //@   ensures [C09:only-the-key-s-secret-is-new] forall s securememory.Secret :: live(s) && !old(live(s)) ==> fresh(s) && err == nil && s == result.secret
 //@   ensures [C09:nothing-released] forall s securememory.Secret :: old(live(s)) ==> live(s)
